@@ -349,6 +349,7 @@ func genSeries(r *hlib.Rand, stream string, n int) []Series {
 		if r.Chance(3, 4) {
 			sort.Strings(s.Tags) // as Receive leaves them
 		}
+		s.Spare = []int{0, 0, 1, 1, 2, 3, 4}[r.Intn(7)]
 		k := string(ty) + "\x00" + s.Name + "\x00" + tagsKeyOf(s)
 		if seen[k] {
 			continue
